@@ -387,3 +387,17 @@ func describeRec(t *Term, depth int, seen map[string]bool) {
 		}
 	}
 }
+
+func cmdAxis(args []string) int {
+	ctx, err := loadRepo(loadOpts{repo: "/repo", controls: false})
+	if err != nil {
+		fmt.Println(err)
+		return 2
+	}
+	for _, pk := range []string{"sdf", "render", "render/dc", "obj", "vec/v2", "vec/v3"} {
+		for _, f := range axisLint(ctx, pk) {
+			fmt.Printf("%v %s %s :: %s\n", f.ok, ctx.pos(f.pos), f.key, f.detail)
+		}
+	}
+	return 0
+}
